@@ -236,6 +236,7 @@ class Session(object):
     def w_addrule(self):
         st = stems_of(self.any_lru())
         a = b"".join(st[: self.r.randint(1, len(st))]); self.note(a)
+        self.q("pagesiter")          # the traversal order the oracle needs ("in some order")
         return self.do("addrule %s %s" % (hx(a), self.r.choice(RULE_NAMES[1:])))
 
     def w_rmrule(self):
